@@ -90,7 +90,7 @@ CLAIMED = {
         "DESIGN.md §5 C12, notes/C12.md",
     ),
     "C08": (
-        ["Gen_LuaFrame", "Transclusion", "ArgViews"],
+        ["Gen_LuaFrame", "Transclusion", "ArgViews", "PageStore"],
         "TLA+ statement of the frame API in terms of the transclusion reference Eval (frame.args = Bind in the caller's frame, parent frame, preprocess/expandTemplate/callParserFunction = Expand of the equivalent wikitext), "
         "evaluated by TLC for every case; generated Lua echo modules run through the real #invoke directly and via one/two wrapper templates; every observed field compared with TLC's value and with the real expansion of the equivalent wikitext",
         "Bounded-exhaustive over argument values (incl. nested calls, padding, newlines) x wrapper depth 0..2 x fragments x Lua strings (1.6k quick, 10k thorough) with two oracles (specification and metamorphic).",
@@ -122,10 +122,12 @@ CLAIMED = {
         "DESIGN.md §5 C05, notes/C05b.md",
     ),
     "C06": (
-        ["SandboxReach", "MC_SandboxReach", "Gen_SandboxReach", "SandboxGate", "MC_SandboxGate", "Gen_SandboxGate", "Trace_SandboxGate"],
+        ["SandboxReach", "MC_SandboxReach", "Gen_SandboxReach", "SandboxGate", "MC_SandboxGate", "Gen_SandboxGate", "Trace_SandboxGate",
+         "SandboxReachLoad", "MC_SandboxReachLoad", "Gen_SandboxReachLoad"],
         "TLA+ attacker model (set of held references, Next = follow an edge) instantiated on every run with the object graph extracted from the LIVE sandbox (tables, metatables, require() results, attributes of reachable Python objects per the attribute filter); "
         "TLC computes reachability of forbidden capabilities; every TLC path is compiled to a Lua probe and executed through #invoke; an attack corpus is executed for real and must be covered by the model; "
-        "SandboxGate models the attribute gate of the Lua-Python bridge over HISTORIES of lookups (gate memory, objects with lifetimes): TLC enumerates every bounded history with the demanded answers, each is run in a fresh context, random longer histories are validated by TLC",
+        "SandboxGate models the attribute gate of the Lua-Python bridge over HISTORIES of lookups (gate memory, objects with lifetimes): TLC enumerates every bounded history with the demanded answers, each is run in a fresh context, random longer histories are validated by TLC; "
+        "SandboxReachLoad models HOW page-supplied source comes to run (loader: compile, bind with setfenv, cache, run) over entry point x shape of the source x history of loads with the invariant that every chunk from the page store runs confined; each case is written into a real page store with a probe that reports which forbidden names it sees from the inside",
         "Exhaustive reachability over the extracted live object graph (~1000 objects) and an every-order model check; real-code confirmation of every counterexample path; 56-module attack corpus with file-system/database snapshots.",
         "object-capability model: VM-level exploits and C library internals trusted; call summaries for a fixed list of callables; offline stand-ins for ustring/libraryUtil.",
         "DESIGN.md §5 C06, notes/C06.md",
